@@ -65,7 +65,7 @@ def _origin_str(o):
         return "generated"
     if o[0] in ("repo", "ext"):
         return "%s:%d" % (o[1], o[2])
-    return "contract:%d" % o[1]
+    return "contract %s" % o[1]
 
 
 def scan_assumptions(text):
@@ -86,34 +86,6 @@ def count_clauses(text):
     return len(re.findall(r"\b(requires|ensures|invariant|invariant_except_break|decreases)\b", text))
 
 
-def add_canaries(vc_text):
-    """Vacuity guard: return the template with `assert(false)` spliced at the start of the body of every
-    function under contract (external_body ones excepted).  Every such assertion must FAIL; one that
-    verifies means the function's precondition is contradictory."""
-    lines = vc_text.split("\n")
-    ext = set()
-    idx = None
-    for i, l in enumerate(lines):
-        s = l.strip()
-        if s.startswith("//@fn "):
-            idx = i
-        elif s.startswith("//@external_body") and idx is not None:
-            ext.add(idx)
-        elif s.startswith("//@end"):
-            idx = None
-    res = []
-    count = 0
-    for i, l in enumerate(lines):
-        res.append(l)
-        s = l.strip()
-        if s.startswith("//@fn ") and i not in ext:
-            nm = s.split("::")[-1].split()[-1]
-            count += 1
-            res.append("//@start")
-            res.append("        proof { assert(false); } // CANARY %d fn %s" % (count, nm))
-    return "\n".join(res), count
-
-
 def run_unit(unit, cfg, profile_name="default", extra_args=None, canary=False, seed=None, timeout=900):
     """cfg: dict with vc, verus_args, defines"""
     r = UnitResult(unit, profile_name)
@@ -121,14 +93,9 @@ def run_unit(unit, cfg, profile_name="default", extra_args=None, canary=False, s
     vc_path = os.path.join(ROOT, cfg["vc"])
     os.makedirs(os.path.join(BUILD, unit), exist_ok=True)
     try:
+        text, origins, log = template.build(vc_path, REPO, cfg.get("defines", {}), canary=canary)
         if canary:
-            vc_text, ncan = add_canaries(open(vc_path).read())
-            tmp_vc = os.path.join(BUILD, unit, "canary.vc")
-            open(tmp_vc, "w").write(vc_text)
-            text, origins, log = template.build(tmp_vc, REPO, cfg.get("defines", {}))
-            r.canaries = {"expected": ncan}
-        else:
-            text, origins, log = template.build(vc_path, REPO, cfg.get("defines", {}))
+            r.canaries = {"expected": log.canaries}
     except (template.TemplateError, template.ScanError, template.macroexp.MacroError) as e:
         r.status = "infra"
         r.infra_msg = "extraction failed: %s" % e
